@@ -3,6 +3,7 @@
 
 use crate::checks::c01::truncate;
 use crate::drivers::*;
+use crate::checks::c12::js;
 use crate::engine::*;
 use crate::interp::*;
 use crate::run::*;
@@ -462,7 +463,7 @@ pub fn run(tier: &str, seed: u64) -> i32 {
         let (all, _, _) = enumerate(&d, if thorough { 2 } else { 1 }, 2_000_000);
         for (_, s) in all {
             if crate::checks::c05::wf5_ok(&s) {
-                states.push(json!({"prog": serde_json::to_value(s.program()).unwrap(), "seeds": seeds, "all_settings": true}));
+                states.push(js(json!({"prog": serde_json::to_value(s.program()).unwrap(), "seeds": seeds, "all_settings": true})));
             }
         }
     }
